@@ -19,9 +19,9 @@ Property theorems about the model of `beyond/utils/node.py` (`Model/Node.lean`).
   nodes (all 768 maximal histories and their prefixes) routes exactly (kernel `decide`; a finite
   part of the property's own finite quantifier, the rest of it is enumerated on the real code).
 
-Open (not proved, listed in the evidence as open obligation): `forest_routes_exact` for forests of
-arbitrary size.  False of the current code and therefore not stated as a theorem: "a shortest chain
-in general" — see `Witness/C20.lean`.
+`forest_routes_exact` for forests of arbitrary size is proved in `Props/C20Forest.lean`.  False of the
+current code and therefore not stated as a theorem: "a shortest chain in general" — see
+`Witness/C20.lean`.
 -/
 namespace BeyondVerif.C20
 open BeyondVerif.Node
